@@ -6,6 +6,7 @@ import (
 	"fmt"
 	"math/rand"
 	"os"
+	"regexp"
 	"strconv"
 	"strings"
 	"sync"
@@ -21,11 +22,12 @@ func init() {
 
 // sysRun is one recorded run of the connection world.
 type sysRun struct {
-	Cfg    sys.Config
-	Stims  []sys.Stim
-	Lines  []sys.Line
-	Direct []string
-	Origin string
+	Cfg         sys.Config
+	Stims       []sys.Stim
+	Lines       []sys.Line
+	Direct      []string
+	Origin      string
+	InvViolated string // design invariant of System.tla that failed on a state reached by following this run
 }
 
 func tlaBool(b bool) string { return strings.ToUpper(strconv.FormatBool(b)) }
@@ -40,6 +42,10 @@ func tlaSet(xs []string) string {
 
 // sysModule builds the MC module and cfg for System.tla / SystemTrace.tla.
 func sysModule(mode string, cfg sys.Config, maxRPC, maxStims int, kinds []string, points []string, invs string) (string, string, string) {
+	return sysModulePeek(mode, cfg, maxRPC, maxStims, kinds, points, invs, 0)
+}
+
+func sysModulePeek(mode string, cfg sys.Config, maxRPC, maxStims int, kinds []string, points []string, invs string, peekLine int) (string, string, string) {
 	base := "System"
 	if mode == "trace" {
 		base = "SystemTrace"
@@ -53,6 +59,9 @@ func sysModule(mode string, cfg sys.Config, maxRPC, maxStims int, kinds []string
 		"Small": tlaBool(cfg.Small), "Manual": tlaBool(cfg.Manual), "Soft": tlaBool(cfg.Soft),
 		"GateU": tlaBool(cfg.GateU), "Gen": tlaBool(mode == "gen"),
 	})
+	if mode == "trace" {
+		consts += " PeekLine = " + strconv.Itoa(peekLine) + "\n"
+	}
 	var c string
 	switch mode {
 	case "design":
@@ -60,7 +69,7 @@ func sysModule(mode string, cfg sys.Config, maxRPC, maxStims int, kinds []string
 	case "gen":
 		c = "SPECIFICATION Spec\n" + consts + "INVARIANTS EmitStims\nCHECK_DEADLOCK FALSE\n"
 	case "trace":
-		c = "SPECIFICATION TSpec\n" + consts + "CONSTRAINT HighWater\nINVARIANT TraceInv\nPOSTCONDITION Report\nCHECK_DEADLOCK FALSE\n"
+		c = "SPECIFICATION TSpec\n" + consts + "CONSTRAINT HighWater\nINVARIANTS TypeOK CloseOnce OneWrite StreamInvs WireOrdered Peek\nPOSTCONDITION Report\nCHECK_DEADLOCK FALSE\n"
 	}
 	return name, mod, c
 }
@@ -108,6 +117,7 @@ func sysExec(cfg sys.Config, stims []sys.Stim, origin string) (*sysRun, bool) {
 // sysValidate has TLC decide whether the runs are behaviours of System.tla. All runs must share cfg.
 func sysValidate(c *vf.Ctx, cfg sys.Config, runs []*sysRun, shards int) (rejected map[*sysRun]int, validated int) {
 	rejected = map[*sysRun]int{}
+	reLine := regexp.MustCompile(`(?m)^/\\ l = (\d+)`)
 	var mu sync.Mutex
 	var wg sync.WaitGroup
 	parts := make([][]*sysRun, shards)
@@ -136,7 +146,7 @@ func sysValidate(c *vf.Ctx, cfg sys.Config, runs []*sysRun, shards int) (rejecte
 						n++
 					}
 				}
-				name, mod, cf := sysModule("trace", cfg, sys.MaxRPC, 1000000, allStimKinds, nil, "")
+				name, mod, cf := sysModule("trace", cfg, sys.MaxRPC, 1000000, allStimKinds, cfg.Points, "")
 				hw, total := -1, -1
 				res, err := vf.TLC(vf.TLCOpts{Module: name, Cfg: cf, Extra: map[string]string{name + ".tla": mod, "trace.ndjson": buf.String()},
 					Workers: 1, DFS: true, Timeout: 30 * time.Minute, HeapMB: 3000,
@@ -146,6 +156,27 @@ func sysValidate(c *vf.Ctx, cfg sys.Config, runs []*sysRun, shards int) (rejecte
 							hw, total = r.Hw, r.Len
 						}
 					}})
+				if err == nil && res.Violated != "" {
+					// a design invariant fails in a state reached by following a real execution
+					ms := reLine.FindAllStringSubmatch(res.TraceText, -1)
+					if len(ms) > 0 {
+						ln, _ := strconv.Atoi(ms[len(ms)-1][1])
+						idx := 0
+						for i := range rest {
+							if starts[i] <= ln-1 {
+								idx = i
+							}
+						}
+						mu.Lock()
+						rest[idx].InvViolated = res.Violated
+						rejected[rest[idx]] = ln - 1 - starts[idx]
+						validated += idx
+						c.AddTLC(res)
+						mu.Unlock()
+						rest = rest[idx+1:]
+						continue
+					}
+				}
 				if err != nil || res.Violated != "" || hw < 0 {
 					mu.Lock()
 					if res != nil && res.Violated != "" {
@@ -225,7 +256,9 @@ func sysRandomStims(rng *rand.Rand, cfg sys.Config, n int, w map[string]int) []s
 		case "fault":
 			out = append(out, sys.Stim{K: "fault", E: eps[rng.Intn(2)]})
 		case "relu":
-			out = append(out, sys.Stim{K: "relu", T: t})
+			out = append(out, sys.Stim{K: "relu", T: append(append([]string{}, cfg.Threads...), "sv")[rng.Intn(len(cfg.Threads)+1)]})
+		case "point":
+			out = append(out, sys.Stim{K: "point", T: append(append([]string{}, cfg.Threads...), "sv")[rng.Intn(len(cfg.Threads)+1)]})
 		}
 	}
 	return out
@@ -242,33 +275,55 @@ func sortStrings(a []string) {
 // SYSDEV is a development entry point: random runs of the connection world validated against System.tla.
 func sysDev(c *vf.Ctx) {
 	rng := rand.New(rand.NewSource(c.Seed))
-	cfg := sys.Config{Small: true, Threads: []string{"c1", "c2"}}
-	var runs []*sysRun
-	n := 60
-	for i := 0; i < n; i++ {
-		st := sysRandomStims(rng, cfg, 30, map[string]int{"invoke": 2, "newstream": 1, "op": 4, "hstep": 6, "relw": 10, "deliver": 10})
-		r, ok := sysExec(cfg, st, "rnd")
-		if !ok {
-			c.Warn("run not quiescent/clean")
-			continue
+	weights := map[string]map[string]int{
+		"happy":  {"invoke": 2, "newstream": 1, "op": 4, "hstep": 6, "relw": 10, "deliver": 10},
+		"cancel": {"invoke": 2, "newstream": 2, "op": 4, "hstep": 5, "relw": 8, "deliver": 8, "cancel": 3},
+		"close":  {"invoke": 2, "newstream": 2, "op": 4, "hstep": 5, "relw": 8, "deliver": 8, "connclose": 1, "cancelsrv": 1},
+		"fault":  {"invoke": 2, "newstream": 2, "op": 4, "hstep": 5, "relw": 8, "deliver": 8, "fault": 1, "relwerr": 1},
+		"all":    {"invoke": 2, "newstream": 2, "op": 5, "hstep": 6, "relw": 10, "deliver": 10, "cancel": 2, "connclose": 1, "cancelsrv": 1, "fault": 1, "relwerr": 1, "relu": 3, "point": 4},
+	}
+	only := os.Getenv("VERIF_SCEN")
+	n := 40
+	if v, err := strconv.Atoi(os.Getenv("VERIF_N")); err == nil {
+		n = v
+	}
+	for _, cfg := range []sys.Config{
+		{Small: true, Threads: []string{"c1", "c2"}},
+		{Small: false, Threads: []string{"c1", "c2"}},
+		{Small: true, Soft: true, Threads: []string{"c1", "c2"}},
+		{Small: false, Soft: true, Manual: true, Threads: []string{"c1", "c2"}},
+		{Small: true, Soft: true, GateU: true, Threads: []string{"c1", "c2"}},
+		{Small: true, Soft: true, Points: []string{"conn.created", "manager.newstream.beforeset"}, Threads: []string{"c1", "c2"}},
+		{Small: false, Soft: false, Points: []string{"conn.created", "manager.newstream.beforeset"}, Threads: []string{"c1", "c2"}},
+	} {
+		var runs []*sysRun
+		for _, scen := range []string{"happy", "cancel", "close", "fault", "all"} {
+			if only != "" && only != scen {
+				continue
+			}
+			for i := 0; i < n; i++ {
+				st := sysRandomStims(rng, cfg, 40, weights[scen])
+				r, ok := sysExec(cfg, st, scen)
+				if !ok {
+					c.Warn("run not quiescent/clean (%s)", scen)
+					continue
+				}
+				for _, d := range r.Direct {
+					c.Violation("direct monitor: "+d, map[string]any{"cfg": cfg, "trace": r.Lines})
+				}
+				runs = append(runs, r)
+			}
 		}
-		runs = append(runs, r)
+		rej, val := sysValidate(c, cfg, runs, 12)
+		c.TraceValidated(int64(val))
+		for r, line := range rej {
+			c.Violation(fmt.Sprintf("system behaviour not allowed by System.tla %s (%s small=%v soft=%v manual=%v gateu=%v)", r.InvViolated, r.Origin, cfg.Small, cfg.Soft, cfg.Manual, cfg.GateU),
+				map[string]any{"first_unmatched_line": line, "trace": r.Lines})
+		}
+		c.EvalN(int64(len(runs)))
 	}
-	if len(runs) > 0 {
-		b, _ := json.MarshalIndent(runs[0].Lines, "", " ")
-		_ = os.WriteFile("/tmp/sysdev-sample.json", b, 0o644)
-	}
-	if os.Getenv("VERIF_CORRUPT") != "" && len(runs) > 3 {
-		// binding self-test: corrupt one observation; the run must be rejected
-		l := &runs[3].Lines[len(runs[3].Lines)/2]
-		l.Obs.TClose["cli"] += 1
-	}
-	rej, val := sysValidate(c, cfg, runs, 8)
-	c.TraceValidated(int64(val))
-	for r, line := range rej {
-		c.Violation("system behaviour not allowed by System.tla", map[string]any{"first_unmatched_line": line, "trace": r.Lines})
-	}
-	c.EvalN(int64(len(runs)))
 }
 
 func init() { All["SYSDEV"] = sysDev }
+
+func sys_ErrClass(err error) string { return sys.ErrClass(err) }
